@@ -108,7 +108,9 @@ def _run_one(scratch, crate, harness, timeout, env, extra, unwind, cbmc_args, me
     log = os.path.join(WORK, scratch.prop, "kani-%s-%s.log" % (crate, re.sub(r"\W", "_", harness)[:60]))
     os.makedirs(os.path.dirname(log), exist_ok=True)
     open(log, "w").write("$ " + " ".join(cmd) + "\n" + (out or "") + "\n--- stderr ---\n" + (err or ""))
-    r = analyse_body(out or "")
+    # `--harness X` matches by substring: pick the block of the harness whose short name is exactly X
+    blocks = parse_kani(out or "", err or "", [harness])
+    r = blocks.get(harness) or analyse_body(out or "")
     r.update({"log": log, "cmd": " ".join(cmd), "wall": secs, "timeout": timed_out, "rc": p.returncode,
               "stubs": re.findall(r"- Stub: (.*)", out or "")})
     err = err or ""
